@@ -14,7 +14,7 @@
 (* trim) and position t of the link is decode-space sample a0 + t.         *)
 (***************************************************************************)
 EXTENDS VFRead, TLC
-CONSTANTS MaxLinks, Shapes, PPPs, S0s, ETs, Muxes, BIdx, PLen, ReadLens, MaxCalls, Ops, DiscardVi, Streaming, PinSer, PinBos
+CONSTANTS MaxLinks, Shapes, PPPs, S0s, ETs, Muxes, BIdx, Spans, PLen, ReadLens, MaxCalls, Ops, DiscardVi, Streaming, PinSer, PinBos
 VARIABLES lay, file, vf, dl, last, ncalls, nxt          \* nxt: ghost, [link, lin] = the decode-space sample that must be handed out next (read-through only)
 vars == <<lay, file, vf, dl, last, ncalls, nxt>>
 K == [chunk |-> 4, near |-> 3, read |-> 2, backup |-> "begin", handover |-> "refetch", clamp |-> TRUE, discardvi |-> DiscardVi]
@@ -40,9 +40,14 @@ LinkPages(i, c) ==
                    gp0 == IF fin THEN Etot(B, ws) + c.s0 - c.et ELSE E(B, ws, b) + c.s0 IN
                [len |-> PLen, ser |-> VSer(i), gp |-> IF gp0 < 0 THEN 0 ELSE gp0, bos |-> FALSE, eos |-> fin, hp |-> 0,
                 ws |-> SubSeq(ws, a, b), bs |-> [x \in 1..(b - a + 1) |-> BK!Bs(B, ws[a + x - 1])], cont |-> FALSE, k0 |-> a]
+      \* sp = 1: the first packet of every audio page but the first began on the page before (the page is "continued");
+      \* sp = 2: ... and between the two lies a page on which no packet ends at all (no granule position)
+      mid == [len |-> PLen, ser |-> VSer(i), gp |-> -1, bos |-> FALSE, eos |-> FALSE, hp |-> 0, ws |-> <<>>, bs |-> <<>>, cont |-> TRUE, k0 |-> 0]
       RECURSIVE Aud(_)
       Aud(j) == IF j > ng THEN <<>>
-                ELSE (IF c.mux \in {1, 2} /\ j = ng /\ ng >= 2 THEN << fd(TRUE) >> ELSE <<>>) \o << au(j) >> \o (IF c.mux # 0 /\ j = 1 THEN << fd(ng = 1 \/ c.mux = 3) >> ELSE <<>>) \o Aud(j + 1)
+                ELSE (IF c.mux \in {1, 2} /\ j = ng /\ ng >= 2 THEN << fd(TRUE) >> ELSE <<>>)
+                     \o (IF c.sp = 2 /\ j >= 2 THEN << mid >> ELSE <<>>)
+                     \o << [au(j) EXCEPT !.cont = (c.sp >= 1 /\ j >= 2)] >> \o (IF c.mux # 0 /\ j = 1 THEN << fd(ng = 1 \/ c.mux = 3) >> ELSE <<>>) \o Aud(j + 1)
   IN bosp \o << hdr(VSer(i), 2, FALSE) >> \o Aud(1)
 RECURSIVE Flat(_, _)
 Flat(ch, i) == IF i > Len(ch) THEN <<>> ELSE LinkPages(i, ch[i]) \o Flat(ch, i + 1)
@@ -55,7 +60,7 @@ LinkOK(c) == LET ws == WS[c.shape]  B == BCat[c.b]  b1 == IF c.ppp > Len(ws) THE
              /\ (b1 = Len(ws) => c.s0 = 0)          \* one page: an initial offset and an end trim cannot be told apart, the generator does not combine them
              /\ N(c) >= 1
 S0V == <<0, 3, -2>>          \* S0s selects from these (a cfg file cannot hold a negative number)
-Links == { c \in [shape : Shapes, ppp : PPPs, s0 : { S0V[x] : x \in S0s }, et : ETs, mux : Muxes, b : BIdx] : LinkOK(c) }
+Links == { c \in [shape : Shapes, ppp : PPPs, s0 : { S0V[x] : x \in S0s }, et : ETs, mux : Muxes, b : BIdx, sp : Spans] : LinkOK(c) }
 Chains == UNION { [1..n -> Links] : n \in 1..MaxLinks }
 FileOf(ch) ==
   LET PG == WithOff(Flat(ch, 1), 1, 0)
